@@ -110,8 +110,12 @@ in `go/extract/mapranges_reviewed.json`). A new or edited loop the rules cannot 
 theorem all_sites_invariant : ∀ s ∈ sites, s.cls ≠ OrderClass.orderSensitive := by decide
 
 open GqlgenVerif.Gen.MapRanges in
-/-- non-vacuity: the extractor saw the generator (BuildData's loop over Schema.Types is there and is sorted after) -/
-example : sites.any (fun s => s.func == "BuildData" && s.expr == "b.Schema.Types" && s.cls == .sortedAfter) = true := by decide
+/-- non-vacuity: the extractor saw the generator (BuildData's loop over Schema.Types is there; its slices are sorted
+after the loop but searched by name before that, so it is a reviewed site pinned by the hash of the loop and of the
+source up to the sort calls) and the sorted-after rule applies somewhere (modelgen's extra fields) -/
+example : sites.any (fun s => s.func == "BuildData" && s.expr == "b.Schema.Types" && s.cls == .reviewed) = true := by decide
+open GqlgenVerif.Gen.MapRanges in
+example : sites.any (fun s => s.func == "getExtraFields" && s.cls == .sortedAfter) = true := by decide
 
 /-! ## the model-name registry is fed in sorted order -/
 
